@@ -81,7 +81,7 @@ Reactions(cls) ==
     [] cls = "BadChunk"  -> {"waitB", "accK", "accC"}
     [] cls = "BadEscape" -> {"r400", "accK", "accC", "r301", "x500"}
     [] cls = "Nul"       -> {"r400", "accK", "accC", "wait"}
-    [] cls = "TlsHello"  -> {"pclose", "wait", "r400"}
+    [] cls = "TlsHello"  -> {"pclose", "wait", "r400", "x500"}
     [] cls = "Truncate"  -> {"wait", "waitB", "accK"}
     [] cls = "Rest"      -> {"accK", "accC", "r400", "wait", "waitB"}
     [] OTHER             -> {}
